@@ -116,10 +116,12 @@ func (p *ClonePool) ExtractPendingRelease() []Value {
 func (p *ClonePool) ExtractAllMarkedFinalize() []Value {
 	p.mx.Lock()
 
-	// Disregard the pendingFinalize list as all values are still present in the
-	// weakrefs map.
+	// Values in the pendingFinalize list had their Go finalizer run, which
+	// flagged them as finalized in the register, but their Lua finalizer has
+	// not been run yet (they were not extracted): they must be returned too,
+	// the loop below skips them.
+	marked := p.pendingFinalize
 	p.pendingFinalize = nil
-	var marked sortablePendingClones
 	for k, c := range p.cloneRegister {
 		if !c.hasFlag(wrFinalized) {
 			c.setFlag(wrFinalized)
